@@ -421,6 +421,26 @@ Pull(m, it, site) ==
          ELSE Pull(PushK(m, Frame("p.chain", site, it, <<>>, m.env)), o.xs[o.fn + 2].n, site)
     [] OTHER -> [m EXCEPT !.st = "model-error:pull:" \o kind, !.ctl = Ctl("halt", 0, Nil)]
 
+\* list.sort(cmp): a stable sort of a copy, written as an insertion sort whose comparisons are calls of cmp.
+\* The frame keeps vs = <<cmp, N(j)>> \o done \o <<x>> \o todo and i = Len(done): x is being placed into the
+\* sorted prefix done, j is the position it is compared with next.  Only the result (and the fact that an
+\* error raised by cmp, or a result that is not a number, ends the sort) is meant: the order of comparisons is
+\* the implementation's own, so generated comparators are pure and consistent.
+SortStep(m, site, cmp, done, j, x, todo, env) ==
+  Call(PushK(m, Frame("c.sort", site, Len(done), <<cmp, N(j)>> \o done \o <<x>> \o todo, env)), cmp, <<done[j], x>>, site)
+
+SortFrame(m0, fr, v) ==
+  LET cmp == fr.vs[1] j == fr.vs[2].n d == fr.i site == fr.n
+      done == SubSeq(fr.vs, 3, 2 + d) x == fr.vs[3 + d] todo == SubSeq(fr.vs, 4 + d, Len(fr.vs))
+      gt == v.x = "inf" \/ (v.x = "" /\ v.n > 0) IN
+  IF ~IsNum(v) \/ v.x = "nan" THEN Throw(m0, "TypeError", site)
+  ELSE IF v.x = "frac" THEN Val(m0, Poison)
+  ELSE IF gt /\ j > 1 THEN SortStep(m0, site, cmp, done, j - 1, x, todo, fr.e)
+  ELSE LET pos == IF gt THEN 0 ELSE j                \* x goes right after position pos
+           nd == SubSeq(done, 1, pos) \o <<x>> \o SubSeq(done, pos + 1, d)
+       IN IF todo = <<>> THEN ValNew(m0, "list", nd)
+          ELSE SortStep(m0, site, cmp, nd, Len(nd), Head(todo), Tail(todo), fr.e)
+
 \* a value (the has-next boolean, or a callback result) arrives at an iterator frame
 IterFrame(m0, fr, v) ==
   LET f == fr.f it == fr.i site == fr.n o == m0.heap[it] has == Truthy(v) IN
@@ -532,6 +552,10 @@ SeqInvoke(m, obj, name, args, site) ==
     [] name = "has" /\ n = 1 -> Val(m, B(PosOfVal(xs, args[1], 1) # 0))
     [] name = "index" /\ n = 1 -> LET p == PosOfVal(xs, args[1], 1) IN Val(m, IF p = 0 THEN Nil ELSE N(p - 1))
     [] name = "rev" /\ isList /\ n = 0 -> ValNew(m, "list", [i \in 1 .. len |-> xs[len + 1 - i]])
+    [] name = "sort" /\ isList /\ n = 1 ->
+         IF ~(args[1].t = "ref" /\ args[1].x \in {"closure", "bound"}) THEN Throw(m, "RuntimeError", site)
+         ELSE IF len <= 1 THEN ValNew(m, "list", xs)
+         ELSE SortStep(m, site, args[1], <<xs[1]>>, 1, xs[2], SubSeq(xs, 3, len), m.env)
     [] name = "slice" /\ n <= 2 ->
          IF \E i \in 1 .. n : ~IsNum(args[i]) THEN Throw(m, "RuntimeError", site)
          ELSE IF \E i \in 1 .. n : args[i].x = "frac" THEN Throw(m, "IndexError", site)
@@ -801,6 +825,7 @@ IterFrames == {"p.map", "p.map2", "p.filter", "p.filter2", "p.take", "p.zip", "p
 ValueAt(m, v) ==
   LET fr == TopK(m) f == fr.f n == fr.n m0 == PopK(m) IN
   CASE f \in IterFrames -> IterFrame(m0, fr, v)
+    [] f = "c.sort" -> SortFrame(m0, fr, v)
     [] f = "exprst" -> Nxt(m0)
     [] f = "exprbody" -> [m0 EXCEPT !.ctl = Ctl("ret", n, v)]
     [] f = "let" -> Nxt(Declare(m0, m0.env, Node(n).s, v))
